@@ -20,6 +20,8 @@ POOL = [
     'globally: no r {x = @U.x}',                                   # sanity
     'globally: no s {x + "a" > 1}',                                # type
     'globally no t',                                               # syntax (missing colon)
+    'globally: no u {sqroot(x) > 1}',                              # unknown function (ValueError)
+    'globally: (v1 or v1) causes w',                               # sanity (duplicate channel)
 ]
 ANN = {'id': '# id: %s', 'title': '# title: "T %s"', 'description': '# description: "d %s"', 'unknown': '# foo: "x %s"'}
 WS = [' ', '\n', '\n\n', ' \n\t', '\r\n', '   ']
